@@ -56,6 +56,10 @@ fn main() {
                     );
                     extra = format!(",\"tests\":{},\"distinct\":{}", tests, distinct);
                 }
+                "crossing" => {
+                    let (tests, distinct) = drivers::eof::crossing(&mut tr, seed, get("shard", 0) as usize, get("nshards", 1) as usize);
+                    extra = format!(",\"tests\":{},\"distinct\":{}", tests, distinct);
+                }
                 "eof" => {
                     let (tests, distinct) = drivers::eof::run(
                         &mut tr,
